@@ -731,6 +731,10 @@ def concrete_strategy(draw: Any) -> dict[str, Any]:
     else:
         k = draw(st.sampled_from([0, 1, 1, 2, 2, 3, 3, 3, 3]))
         comps = [draw(_component(sysname, True)) for _ in range(k)]
+        if k >= 2 and draw(st.integers(0, 4)) == 0:
+            # ties: two structurally equal components (an operator must go by POSITION, never by value)
+            i, j = draw(st.sampled_from([(0, 1), (1, 0)] + ([(0, 2), (2, 1), (1, 2)] if k == 3 else [])))
+            comps[j] = comps[i]
     pts = [draw(_point(sysname)) for _ in range(5)]
     return {"kind": "concrete", "sys": sysname, "shape": shape, "mode": mode, "comps": comps, "pts": pts}
 
